@@ -267,7 +267,14 @@ namespace chaiscript::bootstrap::standard_library {
       }
     }());
 
-    m.add(fun(&ContainerType::pop_back), "pop_back");
+    m.add(fun([](ContainerType &container) {
+            if (container.empty()) {
+              throw std::range_error("Container empty");
+            } else {
+              container.pop_back();
+            }
+          }),
+          "pop_back");
   }
 
   /// Front insertion sequence
